@@ -265,3 +265,9 @@ def known_witnesses():
         p = os.path.join(xv.VERIF, 'regress-known', 'C01', fid + '.json')
         if os.path.exists(p): out.append((fid, json.load(open(p))['case']))
     return out
+
+def bucket(case, detail):
+    """one bucket per (target, report head + top Xerces frames): the first line of the detail carries exactly that"""
+    m = re.search(r'(==XV-ORACLE==[^\n]*|ERROR: [A-Za-z]+Sanitizer[^\n@]*|runtime error:[^\n@]*|ERROR: libFuzzer[^\n@]*)(@[^\n]*)?', detail)
+    head = (re.sub(r'0x[0-9a-f]+', 'ADDR', m.group(1)) + (m.group(2) or '')) if m else detail[:120]
+    return 'bucket:' + case.get('target', case.get('hostile', '?')) + ':' + head[:300]
